@@ -56,8 +56,9 @@ def fmt(o):
     return "%s %s" % ("ran" if o[0] else "rejected", sorted((k, list(v)) for k, v in o[1]))
 
 
-def replay_obj(progs, specs, grp, rs, why):
+def replay_obj(progs, specs, grp, rs, why, pr=None):
     return {"engine": "refgroups", "progs": progs, "rel": grp["rel"],
+            "reference_accepts": [sorted([sorted([k, list(v)] for k, v in m) for m in x["acc"]]) for x in pr["preds"]] if pr else None,
             "members": [{"spec": specs[m["si"]]["str"], "prog": specs[m["si"]].get("prog", 0), "env": list(m["env"]), "argv": list(m["argv"])} for m in grp["members"]],
             "observed": [{k: r.get(k) for k in ("ran", "err", "panic", "log", "hang", "crash") if k in r} for r in rs], "why": why}
 
@@ -74,7 +75,14 @@ def rerun_replay(path, wd, law="equal", only_opts=False):
     outs = [G.outcome(r, only_opts) for r in rs]
     for m, x in zip(o["members"], outs):
         print("replay: spec=%r env=%s argv=%s -> %s" % (m["spec"], m["env"], m["argv"], fmt(x)))
-    if law == "equal":
+    if law == "oracle":
+        bad = False
+        for i, r in enumerate(rs):
+            acc = set(frozenset((k, tuple(v)) for k, v in m) for m in o["reference_accepts"][i])
+            cls = refenum.classify({"acc": acc, "accG": acc, "uncl": False}, r)
+            print("replay: member %d class %s" % (i, cls))
+            bad = bad or cls.startswith("violation")
+    elif law == "equal":
         bad = any(x != outs[0] for x in outs)
     else:
         a, b = outs[0], outs[1]
@@ -92,7 +100,7 @@ def finish_groups(rep, progs, specs, triples, nontrivial_rule):
         if v.startswith("known:"):
             rep.known(v[6:], "%s %s" % (specs[grp["members"][0]["si"]]["str"], [m["argv"] for m in grp["members"]][:3]))
         elif v.startswith("violation"):
-            rep.violation("%s spec=%r: %s" % (grp["rel"], specs[grp["members"][0]["si"]]["str"], v[10:]), replay_obj(progs, specs, grp, rs, v))
+            rep.violation("%s spec=%r: %s" % (grp["rel"], specs[grp["members"][0]["si"]]["str"], v[10:]), replay_obj(progs, specs, grp, rs, v, pr))
         if len(grp["members"]) >= 2 and any(p["acc"] for p in pr["preds"]):
             nontriv.add(key)
             if len(rep.cov["samples"]) < 5 and len(grp["members"][0]["argv"]) >= 2:
